@@ -186,6 +186,9 @@ structure StepS (xf xi : Option Nat) (d : Nat → Nat) (a a' : Sk) : Prop where
   /-- no safety fault is recorded -/
   faults : a'.faults = a.faults
   kMono : a.nextClient ≤ a'.nextClient
+  keyMono : a.nextKey ≤ a'.nextKey
+  /-- only new queries get linked -/
+  idxNew : ∀ x ∈ a'.idx, x ∈ a.idx ∨ a.nextKey ≤ x
   /-- a connection that is being closed by an outer frame stays in the store, and nothing is added to it -/
   unl : ∀ fd q, (fd, true, q) ∈ a.cFUQ → some fd ≠ xf → ∃ q', (fd, true, q') ∈ a'.cFUQ ∧ ∀ k ∈ q', k ∈ q
   /-- a compound request without sub-requests gets none (unless the procedure acts for it) -/
